@@ -304,6 +304,15 @@ Section Registry.
     - now rewrite (off_is_unknown cfg n E).
   Qed.
 
+  Theorem format_calls_spec : forall cfg elems,
+      format_calls sent reg cfg elems = map (impl_of k) (take_while (enabled reg cfg) elems).
+  Proof.
+    intros cfg. induction elems as [|n t IH]; [reflexivity|]. cbn [format_calls take_while].
+    destruct (enabled reg cfg n) eqn:E.
+    - apply names_enabled in E. rewrite (lookup_own cfg n E). cbn [map]. now rewrite IH.
+    - now rewrite (off_is_unknown cfg n E).
+  Qed.
+
   Theorem does_name_exist_spec : forall cfg n,
       does_name_exist sent (names_arr reg cfg) n = Some (enabled reg cfg n).
   Proof.
@@ -370,4 +379,19 @@ Proof.
   unfold callers_ok in Hc. rewrite forallb_forall in Hc. specialize (Hc _ Hin). unfold pair_in in Hc.
   apply existsb_exists in Hc as [[f' fn'] [Hin' He]]. simpl in He. apply andb_true_iff in He as [E1 E2].
   apply String.eqb_eq in E1, E2. now subst.
+Qed.
+
+(** the logging path of one exec runs exactly: the enabled chain elements' filters, the data sources of the format up to the first
+    unknown one, and the configured output if (and only if) it is enabled - each its own implementation *)
+Theorem exec_calls_spec c : registry_consts_ok c = true -> forall cfg chain fmt output,
+  exec_calls c cfg chain fmt output =
+  map (impl_of Filter) (filter (enabled (rc_flt c) cfg) chain)
+  ++ map (impl_of Datasource) (take_while (enabled (rc_ds c) cfg) fmt)
+  ++ (if enabled (rc_out c) cfg output then [impl_of Output output] else []).
+Proof.
+  intros H cfg chain fmt output. destruct (consts_parts c H) as [H1 [H2 [H3 [K1 [K2 [K3 _]]]]]].
+  unfold exec_calls. rewrite (dispatch_is_call c H), (chain_calls_spec _ _ H2), (format_calls_spec _ _ H1), K1, K2.
+  do 2 f_equal. destruct (enabled (rc_out c) cfg output) eqn:E.
+  - apply (names_enabled _ _ H3) in E. now rewrite (lookup_own _ _ H3 cfg output E), K3.
+  - now rewrite (off_is_unknown _ _ H3 cfg output E).
 Qed.
